@@ -35,7 +35,18 @@ EXTRA_OPS = {
                    "1.0e-2*k1*k2*k3*k4*x*z - (k1 + k2)^2*(x - z)^2 + 7.5e-1*x/(1 + z^2) + k3^3*z",
                    "d/dt * z = -z + x"],
            'vars': {'x': 'output(0.6)', 'z': 'variable(0.4)', 'k1': 0.3, 'k2': 1.7, 'k3': -0.9, 'k4': 0.45}},
+    # literals whose magnitude makes the code printers switch to exponent notation (negative and positive exponents)
+    'G4': {'eqs': ["d/dt * x = -x + 0.00002*z^2 + 3.0e-7*x*z - 0.000015 + 2500000.0*1e-7*z",
+                   "d/dt * z = -z + 30000.0*0.001*x - 1.0e-12*x^3 + 12345678.9*0.00000001"],
+           'vars': {'x': 'output(0.6)', 'z': 'variable(0.4)'}},
 }
+
+# two coupled nonlinear nodes with a fast time constant: an adaptive Runge-Kutta solver rejects steps on the way
+STIFF = {'ops': {'sto': {'eqs': ["d/dt * x = (-x + 4.0*tanh(z) + u)/tau", "d/dt * z = (x - z^3)/tau2"],
+                         'vars': {'x': 'output(0.5)', 'z': 'variable(0.1)', 'tau': 0.05, 'tau2': 0.2, 'u': 'input(0.0)'}}},
+         'node_tpls': {'S': [['sto', {}]]}, 'edge_tpls': {}, 'share': True,
+         'circuit': {'name': 'net', 'nodes': {'a': 'S', 'b': 'S'},
+                     'edges': [['a/sto/x', 'b/sto/u', None, {'weight': 2.0}], ['b/sto/z', 'a/sto/u', None, {'weight': -1.5}]]}}
 
 
 def basket(tier):
@@ -61,7 +72,7 @@ def basket(tier):
         if name in ('edge1', 'recurrent'):
             out.append((name + '_hier', gen.wrap_hier(s, 'split'), 'net'))
     if tier == 'quick':
-        keep = {'F1', 'F2', 'F3', 'G1', 'G2', 'G3', 'edge1', 'edge2', 'recurrent', 'fanin3', 'edge_tpl', 'edge1_hier'}
+        keep = {'F1', 'F2', 'F3', 'G1', 'G2', 'G3', 'G4', 'edge1', 'edge2', 'recurrent', 'fanin3', 'edge_tpl', 'edge1_hier'}
         out = [o for o in out if o[0] in keep]
     return out
 
@@ -75,7 +86,7 @@ def cases(tier, seed):
                     for inplace in (True, False):
                         if backend == 'fortran' and (vec or not inplace):
                             continue
-                        if backend == 'fortran' and tier == 'quick' and (prec == 'float32' or name not in ('F2', 'G2', 'G3', 'edge2', 'edge_tpl')):
+                        if backend == 'fortran' and tier == 'quick' and (prec == 'float32' or name not in ('F2', 'G2', 'G3', 'G4', 'edge2', 'edge_tpl')):
                             continue
                         if tier == 'quick' and prec == 'float32' and not vec:
                             continue
@@ -92,6 +103,11 @@ def cases(tier, seed):
                 for vec in ((True,) if backend != 'fortran' else (False,)):
                     out.append({'kind': 'traj', 'name': name, 'spec': s, 'backend': backend, 'solver': solver, 'vectorize': vec,
                                 'prec': 'float64'})
+    # adaptive solvers with their default tolerances on a model that makes them reject steps
+    for backend in ('torch', 'jax', 'fortran'):
+        for vec in ((False, True) if backend != 'fortran' else (False,)):
+            out.append({'kind': 'traj', 'name': 'stiff', 'spec': STIFF, 'backend': backend, 'solver': 'scipy', 'vectorize': vec,
+                        'prec': 'float64', 'loose': True})
     # roll-based delay buffers (backends with a mutable buffer)
     for backend in ('torch', 'fortran'):
         for vec in ((False, True) if backend == 'torch' else (False,)):
@@ -105,7 +121,7 @@ def describe(tier, seed):
                     'edge templates, hierarchy) x backend{default,torch,jax,fortran} x precision{float64,float32} x vectorize x '
                     'vector-field convention{in-place,returned}: vector field per frontend variable at base point + all single '
                     'deviations vs the reference semantics, returned argument values; trajectories for every solver a backend '
-                    'supports vs the default backend; discrete delay buffers on torch/fortran; non-trivial = all',
+                    'supports vs the default backend (tight tolerances; default tolerances on a stiff model with rejected steps); discrete delay buffers on torch/fortran; non-trivial = all',
             'bounds': {'basket': len(basket(tier))}}
 
 
@@ -143,7 +159,9 @@ def run_case(case):
         solver = case['solver'] if backend != 'default' or case['solver'] != 'diffrax' else 'scipy'
         kw = dict(simulation_time=8 * DT, step_size=DT, sampling_step_size=DT, outputs=dict(outs), solver=solver,
                   backend=backend, vectorize=case['vectorize'], verbose=False, float_precision='float64', clear=True)
-        if solver in ('scipy', 'diffrax'):
+        if case.get('loose'):
+            kw.update(simulation_time=2.0, step_size=0.01, sampling_step_size=0.1)
+        elif solver in ('scipy', 'diffrax'):
             kw.update(rtol=1e-9, atol=1e-11)
         if backend == 'fortran':
             kw['file_name'] = fname
